@@ -129,6 +129,8 @@ def _light(case):
         out["scale_k"] = case["scale_k"]
     if case.get("barrier"):
         out["barrier"] = case["barrier"]
+    if case.get("realview_loss"):
+        out["realview_loss"] = True
     return out
 
 
@@ -145,6 +147,8 @@ def oracle(case):
     pol = case["policy"]
     kind = pol["kind"]
     last1 = last2 = None  # adaptive BB: most recent usable ratios
+    doc1 = doc2 = None    # the same, from the differences of successive iterates (accelerated PGM)
+    doc_broken = False
     # curvature of the quadratic (real view, symmetric): f(y) <= f(x) + <grad f(x), y-x> + lmax/2 |y-x|^2 for all x, y
     Qs = np.asarray(case["Q"], dtype=np.float64)
     eigs = np.linalg.eigvalsh((Qs + Qs.T) / 2.0) if Qs.size else np.zeros(1)
@@ -160,6 +164,38 @@ def oracle(case):
         L, Lprev = r["L"], r["Lprev"]
         if not G.finite_pos(L) and G.finite_pos(Lprev):
             return {**where, "why": "returned L is not a finite positive number", "L": L, "Lprev": Lprev, "inner_products": r["ips"]}
+        if kind in ("bb", "abb") and case["accel"] and i >= 1 and not recs[i - 1]["raised"]:
+            # the *documented* differences are those of successive iterates x_k (accelerated PGM: not of the extrapolations
+            # v_k): recomputed from the iterates and the numpy gradient, loose tolerance, skipped at rounding level
+            xd = r["x_before"] - recs[i - 1]["x_before"]
+            if np.all(np.isfinite(xd)) and float(np.linalg.norm(xd)) > 1e-6 * (1.0 + float(np.linalg.norm(r["x_before"]))):
+                with np.errstate(all="ignore"):
+                    gd = grad(r["x_before"]) - grad(recs[i - 1]["x_before"])
+                    xxd, xgd, ggd = float(xd @ xd), float(xd @ gd), float(gd @ gd)
+                    r2d = ggd / xgd if xgd != 0 else math.nan
+                    r1d = xgd / xxd
+                clear = abs(xgd) > 1e-6 * math.sqrt(xxd * ggd) if xxd * ggd > 0 else (xgd == 0)
+                if clear and np.isfinite(ggd):
+                    if G.finite_pos(r1d):
+                        doc1 = r1d
+                    if G.finite_pos(r2d):
+                        doc2 = r2d
+                    if kind == "bb":
+                        wantd = r2d if G.finite_pos(r2d) else Lprev
+                    elif doc1 is None or doc2 is None:
+                        wantd = Lprev
+                    else:
+                        wantd = doc2 if doc1 / doc2 < pol["kappa"] else doc1
+                        if abs(doc1 / doc2 - pol["kappa"]) <= 1e-6:
+                            wantd = None
+                    if wantd is not None and not doc_broken and not _rel(L, wantd, 1, 1e-6):
+                        return {**where, "why": "accelerated PGM: L is not the Barzilai-Borwein value of the differences of successive "
+                                                "iterates x_k, x_(k-1) (the policy was evaluated at another point)",
+                                "L": L, "documented": wantd, "x_k": r["x_before"].tolist(), "x_k-1": recs[i - 1]["x_before"].tolist()}
+                else:
+                    doc_broken = True  # a near-tie decision: the remembered ratios can no longer be followed
+            else:
+                doc_broken = doc_broken or kind == "abb"
         if kind in ("bb", "abb") and not r["first"] and r["ips"] is not None:
             dx, dg = r["dx"], r["dg"]
             xx, xg, gg = float(dx @ dx), float(dx @ dg), float(dg @ dg)
@@ -932,7 +968,7 @@ def correspond(ctx, model):
         pol = G.gen_policy(ctx.rng)
         isbb = pol["kind"] in ("bb", "abb")
         # BB policies: curvature of mixed sign half of the time (fall-backs followed by usable steps), longer runs
-        fl = ["diag-indef", "dense-sym", "complex-herm", "complex-diag"][int(ctx.rng.integers(0, 4))] if (isbb and ctx.rng.integers(0, 2)) else None
+        fl = ["diag-indef", "dense-sym", "complex-herm", "complex-diag", "complex-rv", "complex-rv"][int(ctx.rng.integers(0, 6))] if (isbb and ctx.rng.integers(0, 2)) else None
         p = G.gen_problem(ctx.rng, fl)
         steps = int(ctx.rng.integers(5, 11)) if isbb else int(ctx.rng.integers(2, 9))
         case = {**p, "policy": pol, "accel": bool(ctx.rng.integers(0, 2)), "steps": steps}
